@@ -58,8 +58,20 @@ int main(int argc, char** argv)
 		int rows = (int)g.range(1, g.coin(0.2) ? 200 : 20), cols = kind == 1 ? 1 : (kind == 2 ? 2 : (int)g.range(1, 12));
 		int hl	 = (int)g.range(0, 3);
 		std::string header;
+		int hstyle = (int)g.range(0, 3);	 // 0: plain text lines; 1: some lines blank; 2: some lines whitespace only; 3: first line blank (header starts with a line break)
 		for(int i = 0; i < hl; i++)
-			header += (i ? "\n" : "") + std::string("# header line ") + std::to_string(i) + " with words and 3 numbers 1.5 2e3";
+		{
+			std::string line = std::string("# header line ") + std::to_string(i) + " with words and 3 numbers 1.5 2e3";
+			if((hstyle == 1 && i % 2 == 1) || (hstyle == 3 && i == 0 && hl > 1))
+				line = "";
+			if(hstyle == 2 && i % 2 == 0 && hl > 1)
+				line = "  \t ";
+			if(hl == 1 && line.empty())
+				line = "#";	  // an empty header string means "no header" for the writer
+			header += (i ? "\n" : "") + line;
+		}
+		if(hl >= 1 && header.empty())
+			header = "#";
 		std::vector<double> dims;
 		for(int j = 0; j < cols; j++)
 			dims.push_back(g.coin(0.3) ? 1.0 : std::pow(10.0, g.uni(-30, 30)));
